@@ -31,8 +31,31 @@ type heapClass struct{}
 type AbstractIfaceV struct{}
 
 func (ex *Exec) mergeSlices(c *Term, x, y *SliceV) Value {
-	unsupported("merge of different slices")
-	return nil
+	if x.Len != y.Len {
+		unsupported("merge of slices of different length")
+	}
+	if x.Len == 0 {
+		return x
+	}
+	a, b := ex.curMergeA, ex.curMergeB
+	if a == nil || b == nil {
+		unsupported("merge of different slices")
+	}
+	xa := ex.load(a, x.Loc).(*ArrayV)
+	ya := ex.load(b, y.Loc).(*ArrayV)
+	elems := make([]Value, x.Len)
+	for i := range elems {
+		elems[i] = ex.iteValue(c, xa.Elems[x.Off+i], ya.Elems[y.Off+i])
+	}
+	l := ex.newLoc("merged", types.NewArray(x.Loc.Typ.(*types.Array).Elem(), int64(x.Len)))
+	ex.escaped[l] = true
+	ex.pendingLocs = append(ex.pendingLocs, pendingLoc{l, &ArrayV{Elems: elems}})
+	return &SliceV{Loc: l, Len: x.Len, Cap: x.Len}
+}
+
+type pendingLoc struct {
+	l *Loc
+	v Value
 }
 
 func (ex *Exec) mergeMaps(c *Term, x, y *MapV) Value {
@@ -136,12 +159,20 @@ func (ex *Exec) execLoopInv(s ast.Stmt, cond ast.Expr, body *ast.BlockStmt, post
 	out := &Flow{}
 	fi := ex.prog.LoopFunc[s]
 	// type-check invariant expressions at a position inside the loop body
-	var exprs []ast.Expr
-	for _, c := range invs {
+	var exprs, useExprs []ast.Expr
+	var allClauses = invs
+	invs = nil
+	for _, c := range allClauses {
 		e, err := ex.prog.CheckExprAt(fi.Pkg, body.Lbrace+1, c.Go)
 		if err != nil {
-			unsupported("invariant %q does not type-check: %v", c.Text, err)
+			unsupported("loop clause %q does not type-check: %v", c.Text, err)
 		}
+		if c.Kind == "use" {
+			useExprs = append(useExprs, e)
+			ex.usedContracts["lemma "+fi.Pkg.Name+"."+c.ID] = true
+			continue
+		}
+		invs = append(invs, c)
 		exprs = append(exprs, e)
 	}
 	evalInv := func(s2 *State, kind string) {
@@ -230,6 +261,16 @@ func (ex *Exec) execLoopInv(s ast.Stmt, cond ast.Expr, body *ast.BlockStmt, post
 		c = ex.evalBool(cond, head)
 	}
 	exit := head.fork(ex.ts.And(head.pc, ex.ts.Not(c)))
+	if len(useExprs) > 0 {
+		// lemma instances at the (arbitrary) loop state, available to the body
+		bs := head.fork(ex.ts.And(head.pc, c))
+		for _, e := range useExprs {
+			ex.suppress++
+			g := ex.evalBool(e, bs)
+			ex.suppress--
+			ex.assume(bs, g)
+		}
+	}
 	bodySt := head
 	bodySt.pc = ex.ts.And(head.pc, c)
 	r := ex.execBlock(body.List, bodySt)
